@@ -159,6 +159,21 @@ let run_sched g _obs =
           | [dv] -> Some (dv.d_eui, uplink_prog e d f rx (S O) (n_of_int 1))
           | _ -> None)
     | _ -> None in
+  if (try g "f3" <> "" with Failure _ -> false) then begin
+    (* three handlers: interleaveN, the schedule names the handler *)
+    let (rx3, _, _) = frame_of "f3" in
+    let sched3 = List.init (String.length (g "sched")) (fun i -> nat_of_int (Char.code (g "sched").[i] - 48)) in
+    match prog_of rx1, prog_of rx2, prog_of rx3 with
+    | Some (eui, p), Some (eui2, q), Some (eui3, r3) when eui = eui2 && eui = eui3 ->
+      let st = dt_get s1.s_tab eui in
+      let fuel = nat_of_int 150 in
+      let (st', outs) = interleaveN s1.s_apps sched3 fuel st [p; q; r3] [] in
+      let tr = List.map (fun (i, nm) -> string_of_int (int_of_nat i) ^ ":" ^ ocaml_string_of nm) (itraceN s1.s_apps sched3 fuel st [p; q; r3]) in
+      let s2 = { s1 with s_tab = dt_put s1.s_tab eui st' } in
+      let downs_only = List.filter (function ODown _ -> true | _ -> false) outs in
+      (out_strings downs_only ^ " " ^ dump_all s2 euis ^ " ; trace{" ^ String.concat "," tr ^ "}", s1, s2, eui)
+    | _ -> failwith "sched case: frames do not belong to one device"
+  end else
   match prog_of rx1, prog_of rx2 with
   | Some (eui, p), Some (eui2, q) when eui = eui2 ->
     let st = dt_get s1.s_tab eui in
